@@ -16,7 +16,8 @@ def runCore : IO Unit := do
   let flush := fun (name : String) (ls : List String) => do
     match acceptAll ls.reverse with
     | .ok a =>
-        IO.println s!"OK {name} events={a.events} skipped={a.skipped} calls={a.calls} torn={a.σ.torn} taintAdd={a.σ.taintAdd} taintNoStream={a.σ.taintNoStream} pcs={",".intercalate a.pcs} rets={",".intercalate a.rets}"
+        IO.println s!"OK {name} events={a.events} skipped={a.skipped} calls={a.calls} torn={a.σ.torn} taintAdd={a.σ.taintAdd} taintNoStream={a.σ.taintNoStream} hyp={a.hyp.length} outside={a.outside.getD 0} pcs={",".intercalate a.pcs} rets={",".intercalate a.rets}"
+        if !a.hyp.isEmpty then IO.println s!"HYP {name} {" ".intercalate a.hyp}"
     | .error e => IO.println s!"MISMATCH {name} {e}"
   for l in lines do
     if l.startsWith "=== " then
